@@ -152,8 +152,9 @@ package environment
 // ---------------------------------------------------------------------------------------------------------
 // C01: the transition table is exactly the documented graph, and the state is forced only to ERROR or DONE.
 //@ func newEnvironment(userVars map[string]string, newId uid.ID) (env *Environment, err error)
-//@   property C01
-//@   literal fsm.Events == "DEPLOY|STANDBY|DEPLOYED;CONFIGURE|DEPLOYED|CONFIGURED;RESET|CONFIGURED|DEPLOYED;START_ACTIVITY|CONFIGURED|RUNNING;STOP_ACTIVITY|RUNNING|CONFIGURED;EXIT|CONFIGURED,DEPLOYED,STANDBY|DONE;GO_ERROR|STANDBY,CONFIGURED,DEPLOYED,RUNNING|ERROR;RECOVER|ERROR|DEPLOYED"
+//@   property C01 C14
+//@   [C14] on call workflow.NewParentAdapter : assert argfunc2 == "core/environment.newEnvironment$3" && argfunc3 == "core/environment.newEnvironment$4" && argfunc4 == "core/environment.newEnvironment$5"
+//@   [C01] literal fsm.Events == "DEPLOY|STANDBY|DEPLOYED;CONFIGURE|DEPLOYED|CONFIGURED;RESET|CONFIGURED|DEPLOYED;START_ACTIVITY|CONFIGURED|RUNNING;STOP_ACTIVITY|RUNNING|CONFIGURED;EXIT|CONFIGURED,DEPLOYED,STANDBY|DONE;GO_ERROR|STANDBY,CONFIGURED,DEPLOYED,RUNNING|ERROR;RECOVER|ERROR|DEPLOYED"
 
 //@ func (env *Environment) setState(state string)
 //@   property C01
@@ -251,3 +252,16 @@ package environment
 //@   on mapupdate environment.Manager.m : assert !registered && (forall d system.ID :: (d in neededDetectors) ==> !(d in alreadyActiveDetectors)) ; registered = true
 //@   loop 4 invariant forall d system.ID :: #visited[d] ==> !(d in alreadyActiveDetectors)
 //@   loop 4 invariant !registered
+
+// ---------------------------------------------------------------------------------------------------------
+// C14: the environment-wide values rank as the outermost ancestor of every role: the adapter the root role is attached
+// to hands out the environment's GlobalDefaults / GlobalVars / UserVars as the parents of the root's three maps.
+//@ closure newEnvironment #3
+//@   property C14
+//@   ensures result == env.GlobalDefaults
+//@ closure newEnvironment #4
+//@   property C14
+//@   ensures result == env.GlobalVars
+//@ closure newEnvironment #5
+//@   property C14
+//@   ensures result == env.UserVars
